@@ -57,6 +57,9 @@ class LookModel(LinModel):
                 return Lin.sym('B')
             if name in ('size', 'length'):
                 return Lin.sym('L')
+        g = it.prog.funcs.get(callee.get('id'))
+        if callee.get('repo') and g is not None and g.relfile.endswith('convert_fundamental.h'):
+            return NotImplemented        # helpers of the parser are inlined
         for a in args:
             it.ev(fr, a, depth)
         return TOP
@@ -73,15 +76,28 @@ def check_lookahead(prog, rep):
           and any('from_chars_result' in f.type(p) for p in f.params if 't' in p)]
     seen = set()
     for f in sorted(fs, key=lambda g: g.id):
-        derefs = [n for n in f.walk() if n['k'] == 'UnaryOperator' and n.get('op') == '*']
-        if not derefs:
+        def has_deref(g, depth=0):
+            if any(n['k'] == 'UnaryOperator' and n.get('op') == '*' for n in g.walk()) or \
+                    any(n['k'] == 'ArraySubscriptExpr' for n in g.walk()):
+                return True
+            if depth < 2:
+                for n in g.walk():
+                    if n['k'] == 'CallExpr':
+                        c = g.callee(n) or {}
+                        h = prog.funcs.get(c.get('id'))
+                        if h is not None and c.get('repo') and h.relfile.endswith('convert_fundamental.h') and has_deref(h, depth + 1):
+                            return True
+            return False
+        # a validator that only forwards to another validator of the header is analysed there (the callee takes the result as well)
+        forwards = any(n['k'] == 'CallExpr' and (f.callee(n) or {}).get('id') in set(g_.id for g_ in fs) for n in f.walk())
+        if not has_deref(f) or (forwards and not any(n['k'] == 'UnaryOperator' and n.get('op') == '*' for n in f.walk())):
             continue       # instantiations for floating targets have no look-ahead
         if len(seen) >= 3:
             break
         seen.add(f.id)
         rep.touch(f)
         model = LookModel()
-        it = LookInterp(prog, model, max_depth=0, max_paths=200)
+        it = LookInterp(prog, model, max_depth=2, max_paths=400)
         B, L, P = Lin.sym('B'), Lin.sym('L'), Lin.sym('P')
 
         def init(it_, fr):
@@ -179,13 +195,27 @@ class BoolModel(Model):
 
 
 class BoolInterp(Interp):
-    def ev_subscript(self, fr, n, depth):
-        return Interp.ev_subscript(self, fr, n, depth)
+    """string literals handed to helpers (keyword tables) are arrays of their character codes"""
+
+    def ev(self, fr, n, depth):
+        if n is not None and n['k'] == 'StringLiteral' and 's' in n:
+            return [ord(c) for c in n['s']] + [0]
+        return Interp.ev(self, fr, n, depth)
+
+    def cast_other(self, v, t):
+        if isinstance(v, list):
+            return v
+        return Interp.cast_other(self, v, t)
+
+    def coerce(self, v, t):
+        if isinstance(v, list):
+            return v
+        return Interp.coerce(self, v, t)
 
 
 def bool_outcomes(prog, f, text):
     model = BoolModel(text)
-    it = Interp(prog, model, max_depth=2, max_paths=3000)
+    it = BoolInterp(prog, model, max_depth=2, max_paths=3000)
 
     def init(it_, fr):
         fr.env[f.params[0]['d']] = Sym('VIEW')
